@@ -3,6 +3,17 @@
 HOOK_COMMITS = ["af6de69"]   # filled as hook commits are made in /repo
 
 CHECKS = {
+    "C17": dict(
+        category="model_checking",
+        text=("Cli.tla: process outcome machine without a Panic action, with the statistic x shape admissibility table and the "
+              "scenario classes (options beyond bounds, degenerate shapes, absurd inputs, contradictory sample lists, field-level "
+              "file damage) enumerated by TLC; every scenario is run on the real binary and classified Exit0 / ExitErr+diagnostic "
+              "/ panic."),
+        design_ref="DESIGN.md section 3 (C17) and section 5",
+        note=("The grids are exhaustive in the bound (model-checked case table). Mutated inputs are exploration: TLC enumerates "
+              "damage classes, the bytes are seeded random (3 seeds quick, 25 thorough). Trusted: TLC, harness concretisation."),
+        technique="TLA+ outcome machine and admissibility table, TLC enumeration of scenario classes, execution on the binary",
+    ),
     "C12": dict(
         category="model_checking",
         text=("BgzfPool.tla model-checks the worker-pool protocol (any completion order, in-order delivery, empty blocks, liveness) "
